@@ -64,8 +64,10 @@ pub fn graham4<S: Src>(s: &mut S, n: i8, x0: Option<i8>) {
 }
 
 /// the trait entry point on <= 3 coordinates (trivial_hull path of quick_hull)
-pub fn trivial3<S: Src>(s: &mut S, n: i8) {
+/// `sign`: case split on the orientation of the input triple (+1 ccw, -1 cw, 0 collinear)
+pub fn trivial3<S: Src>(s: &mut S, n: i8, sign: W) {
     let (a, b, c) = (gp(s, n), gp(s, n), gp(s, n));
+    vassume!(orient(a, b, c) == sign);
     let mp = MultiPoint(vec![Point(ci(a)), Point(ci(b)), Point(ci(c))]);
     let hull = mp.convex_hull();
     assert!(hull.interiors().is_empty(), "hull has holes");
@@ -82,22 +84,28 @@ pub fn trivial3<S: Src>(s: &mut S, n: i8) {
             i += 1;
         }
     }
-    vcover!(orient(a, b, c) < 0, "clockwise input triangle (must be re-wound)");
-    vcover!(orient(a, b, c) == 0 && a != b && b != c && a != c, "three collinear distinct points");
+    if sign == 0 {
+        vcover!(a != b && b != c && a != c, "three collinear distinct points");
+    }
     core::mem::forget(hull);
     core::mem::forget(mp);
 }
 
 harnesses! {
-    #[kani::unwind(7)] fn c08_trivial3_g3(s) { trivial3(s, 3) }
+    #[kani::unwind(7)] fn c08_trivial3_g2_ccw(s) { trivial3(s, 2, 1) }
+    #[kani::unwind(7)] fn c08_trivial3_g2_cw(s) { trivial3(s, 2, -1) }
+    #[kani::unwind(7)] fn c08_trivial3_g2_collinear(s) { trivial3(s, 2, 0) }
     #[kani::unwind(7)] fn c08_graham4_g1(s) { graham4(s, 1, None) }
+    #[kani::unwind(7)] fn c08_graham4_g1_x0(s) { graham4(s, 1, Some(-1)) }
+    #[kani::unwind(7)] fn c08_graham4_g1_x1(s) { graham4(s, 1, Some(0)) }
+    #[kani::unwind(7)] fn c08_graham4_g1_x2(s) { graham4(s, 1, Some(1)) }
     #[kani::unwind(7)] fn c08_graham4_g2_x0(s) { graham4(s, 2, Some(-2)) }
     #[kani::unwind(7)] fn c08_graham4_g2_x1(s) { graham4(s, 2, Some(-1)) }
     #[kani::unwind(7)] fn c08_graham4_g2_x2(s) { graham4(s, 2, Some(0)) }
     #[kani::unwind(7)] fn c08_graham4_g2_x3(s) { graham4(s, 2, Some(1)) }
     #[kani::unwind(7)] fn c08_graham4_g2_x4(s) { graham4(s, 2, Some(2)) }
     #[kani::unwind(7)] fn c08_sanity_must_fail(s) {
-        trivial3(s, 2);
+        trivial3(s, 1, 1);
         assert!(false, "sanity twin reached its end");
     }
 }
